@@ -675,6 +675,48 @@ func c04shape(c *drv.Ctx, rows []c04row) {
 		}
 		c.Outcome("rejected")
 	}
+	// histories: the constructor is a function of its argument, whatever was asked before. Every ordered
+	// triple over {rejected sizes, accepted sizes of several rows} is played on the real constructor: a
+	// rejected size stays rejected when asked again or after an accepted one, and an accepted size yields
+	// the group of its own row after any other request (a remembered lookup must not leak)
+	{
+		alpha := []int64{1 << 33, 0, 1<<32 + 61, 5, 300, 70000, 1 << 32}
+		wantP := func(n int64) uint64 {
+			if n <= 0 {
+				return 0
+			}
+			for _, r := range rows {
+				if r.P > uint64(n) {
+					return r.P
+				}
+			}
+			return 0
+		}
+		for _, a := range alpha {
+			for _, b := range alpha {
+				for _, d := range alpha {
+					c.Eval(1)
+					for i, n := range []int64{a, b, d} {
+						it, err, pan := c04new(n, 1, 1)
+						seq := fmt.Sprintf("%d,%d,%d", a, b, d)
+						switch {
+						case pan != nil:
+							c.Fail(fmt.Sprintf("history:%s:panic", seq), fmt.Sprintf("newRangeIterator called with sizes %s in a row: call %d panicked: %v", seq, i+1, pan), nil)
+						case wantP(n) == 0 && (err == nil || it != nil):
+							c.Fail(fmt.Sprintf("history:accepted-out-of-range:n=%d:call=%d", n, i+1), fmt.Sprintf("newRangeIterator called with sizes %s in a row: call %d (size %d, outside 1..2^32+60) was accepted", seq, i+1, n), nil)
+						case wantP(n) != 0 && (err != nil || it == nil):
+							c.Fail(fmt.Sprintf("history:rejected-in-range:n=%d:call=%d", n, i+1), fmt.Sprintf("newRangeIterator called with sizes %s in a row: call %d (size %d) failed: %v", seq, i+1, n, err), nil)
+						case wantP(n) != 0:
+							if st := c04stateOf(it); st.Flags&1 == 0 && st.P != wantP(n) {
+								c.Fail(fmt.Sprintf("history:wrong-group:n=%d:call=%d", n, i+1), fmt.Sprintf("newRangeIterator called with sizes %s in a row: call %d (size %d) walks the group of P=%d, its row has P=%d", seq, i+1, n, st.P, wantP(n)), nil)
+							}
+						}
+					}
+					c.Outcome("history-ok")
+				}
+			}
+		}
+	}
 	// the largest and smallest accepted sizes are accepted (run to exhaustion in (a)/(c))
 	for _, n := range []int64{1, 1 << 32, 1<<32 + 60} {
 		c.Eval(1)
@@ -953,7 +995,9 @@ func c04positioned(c *drv.Ctx, rows []c04row, u *c04unit, fail func(byte, int, s
 		}
 		pred := c04mulmod(tg, inv, st.P)
 		if c04mulmod(pred, st.G, st.P) != tg {
-			c.Infra("c04 positioned: inverse of G'=%d mod %d wrong", st.G, st.P)
+			// G'^(P-2) is the inverse only when P is prime: a table row with a composite modulus is
+			// section (b)'s finding, nothing can be placed here
+			c.Outcome("e:skipped-modulus-not-prime")
 			return
 		}
 		ip.SetUint64(pred)
